@@ -191,8 +191,7 @@ class Evaluator:
                 if isinstance(a, tuple) and a and a[0] == 'cmp':
                     # a comparison used as an integer: case split on its outcome
                     for sense in (True, False):
-                        p2 = self._assume(path, a, sense)
-                        if p2 is not None:
+                        for p2 in self._assume_all(path, a, sense):
                             r2 = dict(regs)
                             r2[i.id] = Aff({}, (1 if op == 'zext' else -1) if sense else 0)
                             self._continue(fn, r2, p2, blk, i.idx + 1, out, depth + 1)
@@ -206,7 +205,10 @@ class Evaluator:
                 regs[i.id] = a
             elif op == 'icmp':
                 a, b = self._val(regs, i.ops[0]), self._val(regs, i.ops[1])
-                regs[i.id] = ('cmp', i.x['pred'], a - b)
+                r0 = i.ops[0]
+                ty0 = fn.imap[r0].ty if isinstance(r0, str) and r0 in fn.imap else next((x['ty'] for x in fn.args if x['id'] == r0), None) if isinstance(r0, str) else ('i%d' % r0.get('w', 64) if isinstance(r0, dict) else None)
+                w = int(ty0[1:]) if isinstance(ty0, str) and ty0.startswith('i') and ty0[1:].isdigit() else 64
+                regs[i.id] = ('cmp', i.x['pred'], a - b, a, b, w)
             elif op == 'insertvalue':
                 base = self._val(regs, i.ops[0]) if not (isinstance(i.ops[0], dict) and i.ops[0].get('k') == 'undef') else None
                 lst = list(base) if isinstance(base, tuple) else [None, None]
@@ -240,8 +242,7 @@ class Evaluator:
             elif op == 'select':
                 c = self._val(regs, i.ops[0])
                 for sense, ref in ((True, i.ops[1]), (False, i.ops[2])):
-                    p2 = self._assume(path, c, sense)
-                    if p2 is not None:
+                    for p2 in self._assume_all(path, c, sense):
                         r2 = dict(regs)
                         r2[i.id] = self._val(regs, ref)
                         self._continue(fn, r2, p2, blk, i.idx + 1, out, depth + 1)
@@ -253,8 +254,7 @@ class Evaluator:
                     return
                 c = self._val(regs, i.ops[0])
                 for sense, t in ((True, tg[0]), (False, tg[1])):
-                    p2 = self._assume(path, c, sense)
-                    if p2 is not None:
+                    for p2 in self._assume_all(path, c, sense):
                         self._run(fn, regs, p2, t, bid, out, depth + 1)
                 return
             elif op == 'ret':
@@ -307,6 +307,38 @@ class Evaluator:
     @staticmethod
     def _is_bool(a):
         return isinstance(a, Aff) and a.is_const() and a.k in (0, 1)
+    def _assume_all(self, path, c, sense):
+        """paths (possibly several) on which condition c has the given truth value.  An unsigned comparison of values that may be negative as
+        signed numbers is split on the signs: a negative value compares as value + 2^width"""
+        if isinstance(c, tuple) and c and c[0] == 'cmp' and c[1][0] == 'u' and len(c) >= 6:
+            pred, a, b, w = c[1], c[3], c[4], c[5]
+            ia, ib = path.interval(a), path.interval(b)
+            if ia[0] < 0 or ib[0] < 0:
+                out = []
+                M = 1 << w
+                for sa in ((0,) if ia[0] >= 0 else (0, 1)):
+                    for sb in ((0,) if ib[0] >= 0 else (0, 1)):
+                        p2 = path
+                        for x, neg in ((a, sa), (b, sb)):
+                            if p2 is None or x.is_const():
+                                if x.is_const() and ((x.k < 0) != bool(neg)):
+                                    p2 = None
+                                continue
+                            if path.interval(x)[0] >= 0 and not neg:
+                                continue
+                            q = p2.copy()
+                            q.cons.append((x, '<' if neg else '>='))
+                            p2 = q if q.feasible() else None
+                        if p2 is None:
+                            continue
+                        a2 = a + Aff({}, M) if sa else a
+                        b2 = b + Aff({}, M) if sb else b
+                        r = self._assume(p2, ('cmp', 's' + pred[1:], a2 - b2), sense)
+                        if r is not None:
+                            out.append(r)
+                return out
+        r = self._assume(path, c, sense)
+        return [r] if r is not None else []
     def _assume(self, path, c, sense):
         """path extended with condition c == sense, or None if infeasible"""
         if isinstance(c, Aff):
